@@ -2,6 +2,13 @@
 """Regenerates MANIFEST.json from props/*.json (one file per claimed property)."""
 import json, os, glob
 HERE = os.path.dirname(os.path.dirname(os.path.abspath(__file__)))
+def hook_commits():
+    import subprocess
+    try:
+        out = subprocess.run(["git", "-C", "/repo", "log", "--reverse", "--format=%H %s"], stdout=subprocess.PIPE, text=True).stdout
+        return [l.split(" ", 1)[0] for l in out.strip().split("\n") if " hook:" in " " + l.split(" ", 1)[1][:6]]
+    except Exception:
+        return []
 ids = [json.loads(l)["id"] for l in open(os.path.join(HERE, "properties.jsonl"))]
 checks, na = [], []
 na_reasons = json.load(open(os.path.join(HERE, "props", "not_applicable.json"))) if os.path.exists(os.path.join(HERE, "props", "not_applicable.json")) else {}
@@ -30,7 +37,7 @@ man = {
         "guard": "verif",
         "enable": "go build -tags verif -overlay <generated overlay.json mapping harness/overlay/<pkg>/zz_verif_*.go into /repo/<pkg>/> (done by ./check)",
         "baseline_off_cmd": "cd /repo && GOFLAGS=-mod=mod go test -vet=off -count=1 -timeout 25m ./...",
-        "source_commits": json.load(open(os.path.join(HERE, "props", "hook_commits.json"))) if os.path.exists(os.path.join(HERE, "props", "hook_commits.json")) else [],
+        "source_commits": hook_commits(),
         "add_only": True,
     },
     "engines": [{"name": "coq+corr", "path": "/verif/check", "serves_properties": [c["property_id"] for c in checks],
